@@ -1,15 +1,15 @@
 #!/bin/bash
-# usage: tools/confirm_seed.sh <PROPERTY-ID> [worktree]   (default worktree /tmp/seed-<ID>)
+# usage: tools/confirm_seed.sh <PROPERTY-ID> [worktree] [name under seeded/]   (default worktree /tmp/seed-<ID>)
 # Confirms a seeded change delivered by a context-free sub-agent: builds, demo FAILS with the change and
 # PASSES without it, the existing suite passes with the change; then stores it under seeded/<ID>/ and
 # records which checks notice it (run with -repo on the worktree; the demo *_test.go is not loaded).
 set -u
 export GOFLAGS=-mod=mod GOPROXY=off GOSUMDB=off GOTOOLCHAIN=local; unset GOWORK
-id="$1"; wt="${2:-/tmp/seed-$1}"; out="/verif/seeded/$id"
+id="$1"; wt="${2:-/tmp/seed-$1}"; out="/verif/seeded/${3:-$id}"
 mkdir -p "$out"
 cd "$wt" || exit 1
 [ -f seed/patch.diff ] || { echo "no seed/patch.diff"; exit 1; }
-demo=$(ls zz_seed_*_test.go 2>/dev/null | head -1)
+demo=$(ls zz_seed*_test.go 2>/dev/null | head -1)
 [ -n "$demo" ] || { echo "no demo test"; exit 1; }
 tests=$(grep -o '^func Test[A-Za-z0-9_]*' "$demo" | sed 's/func //' | paste -sd'|')
 log="$out/confirm.log"; : > "$log"
@@ -17,18 +17,22 @@ say(){ echo "$@" | tee -a "$log"; }
 # state: change applied?
 if git apply --check -R seed/patch.diff 2>/dev/null; then applied=1; else applied=0; git apply seed/patch.diff || { say "patch does not apply"; exit 1; }; fi
 say "== build with change"; go build ./... 2>&1 | tee -a "$log"; go vet . >/dev/null 2>>"$log" || say "(vet complains)"
-say "== demo WITH change (expect FAIL): $tests"
-flock /tmp/raft-test.lock go test -vet=off -count=1 -timeout 10m -run "^($tests)\$" . > "$out/demo_with.log" 2>&1; w=$?
+say "== demo WITH change (expect FAIL): $tests ${DEMO_FLAGS:-}"
+flock /tmp/raft-test.lock go test ${DEMO_FLAGS:-} -vet=off -count=1 -timeout 10m -run "^($tests)\$" . > "$out/demo_with.log" 2>&1; w=$?
 say "exit=$w"
 git apply -R seed/patch.diff
 say "== demo WITHOUT change (expect PASS)"
-flock /tmp/raft-test.lock go test -vet=off -count=1 -timeout 10m -run "^($tests)\$" . > "$out/demo_without.log" 2>&1; wo=$?
+flock /tmp/raft-test.lock go test ${DEMO_FLAGS:-} -vet=off -count=1 -timeout 10m -run "^($tests)\$" . > "$out/demo_without.log" 2>&1; wo=$?
 say "exit=$wo"
 git apply seed/patch.diff
 say "== existing suite WITH change, demo moved aside (expect PASS)"
+if [ -n "${SKIP_SUITE:-}" ] && grep -q '^ok  	github.com/jmsadair/raft	' "$out/suite_with.log" 2>/dev/null && ! grep -q '^FAIL' "$out/suite_with.log"; then
+  s=0; say "(suite result of the previous confirmation run reused)"
+else
 mv "$demo" "/tmp/$demo.aside"
 flock /tmp/raft-test.lock go test -vet=off -count=1 -timeout 25m ./... > "$out/suite_with.log" 2>&1; s=$?
 mv "/tmp/$demo.aside" "$demo"
+fi
 say "exit=$s $(grep -E '^(ok|FAIL|---)' "$out/suite_with.log" | tr '\n' ' ')"
 cp seed/patch.diff "$out/patch.diff"; cp "$demo" "$out/demo_test.go.txt"; cp seed/README.md "$out/agent_README.md" 2>/dev/null
 say "== checks on the changed tree"
